@@ -84,7 +84,8 @@ NextBytes ==
                                       ELSE IntArgs(s.need), s.acc)
          [] OTHER -> PayAlphabet
 
-Terminal == s.st # "run" \/ (CbBetween(s) /\ s.done >= 1) \/ Len(doc) >= MaxLen
+Terminal == IF Mode = "any" THEN Len(doc) >= MaxLen ELSE
+  s.st # "run" \/ (CbBetween(s) /\ s.done >= 1) \/ Len(doc) >= MaxLen
             \/ (s.ph = "head" /\ items >= MaxItems)
 
 Init == doc = <<>> /\ s = CbInit /\ items = 0 /\ rich = 0
@@ -100,7 +101,7 @@ Next ==
 Spec == Init /\ [][Next]_vars
 
 Report ==
-  Terminal /\ (CbClass(s) # "incomplete" \/ EmitIncomplete) =>
+  (IF Mode = "any" THEN doc # <<>> ELSE Terminal) /\ (CbClass(s) # "incomplete" \/ EmitIncomplete) =>
     PrintT(ToJson([doc |-> doc, class |-> CbClass(s), why |-> s.why]))
 
 \* ---- properties of the reference automaton itself (model level) ---------
